@@ -188,8 +188,8 @@ inline bool model_step(Op const& op, i64 x, i64& y, bool& nan)
     {
     case 0: r = static_cast<i128>(x) + op.arg; break;
     case 1: r = static_cast<i128>(x) - op.arg; break;
-    case 2: r = static_cast<i128>(x) * op.arg; break;
-    default: if( op.arg == 0 ) { nan = true; return true; } r = static_cast<i128>(x) / op.arg; break;
+    case 2: { i128 n = int_value(op.type, static_cast<u64>(op.arg) & t_mask(op.type)); r = static_cast<i128>(x) * n; break; }      // |x| < 2^63, n < 2^64: fits 128 bits
+    default: { i128 n = int_value(op.type, static_cast<u64>(op.arg) & t_mask(op.type)); if( n == 0 ) { nan = true; return true; } r = static_cast<i128>(x) / n; break; }
     }
   nan = r < FX_LOWEST || r > FX_MAX;
   y = nan ? FX_NAN : static_cast<i64>(r);
@@ -223,6 +223,7 @@ std::vector<std::pair<int,i64>> typed_n()
   for( i64 n : { -5ll, 12ll, (1ll<<32)+1, -((11ll<<32)-1) } ) v.push_back({T_LL, n});
   for( int t : { T_I8, T_I16, T_I32, T_I64, T_LL } ) { v.push_back({t, -1}); v.push_back({t, 1}); }      // the units: (a * -1) / -1 reaches MIN / -1 of narrow fast paths
   for( int t : { T_U8, T_U32, T_ULL } ) v.push_back({t, 1});
+  for( int t : { T_U64, T_ULL } ) for( i64 n : std::vector<i64>{ -2, -(1ll << 62), static_cast<i64>(0x8000000000000001ull) } ) v.push_back({t, n});   // 64-bit unsigned scalars above INT64_MAX (bit pattern given as int64)
   return v;
   }
 
